@@ -221,6 +221,22 @@ def run(ctx):
             st["distinct"].add(a["text"])
         if len(st["samples"]) < 5 and 0 < len(got) < 6:
             st["samples"].append({"where": a["text"], "rows": sorted(got)})
+    # Variant::to_int (the literal's reading in an integer comparison): the real function against model.Conforms.to_int
+    try:
+        from .harness import Harness
+        from .common import gstr
+        lits = sorted({a["text"].split(None, 2)[2] for a in atoms if a["kind"] == "int"} | {"-1", "-0", "+5", "007", "1.5k", "1 KiB", "2 mb", "9223372036854775807", "9223372036854775808", "18446744073709551615", "abc", "", "1e3", "0x10", "12 k b"})
+        hres = Harness().batch([{"cmd": "to_int", "s": x} for x in lits])
+        mres2 = coq_eval("From Coq Require Import List ZArith NArith.\nFrom FS Require Import lib.Str model.Conforms.\nImport ListNotations. Open Scope Z_scope.\n", ["to_int %s" % gstr(x) for x in lits], ctx.scratch, tag="c02i", shard=200)
+        for x, hr, mt in zip(lits, hres, mres2):
+            mv = parse_nested(mt)
+            if hr.get("r") != mv:
+                ctx.violation("correspondence-mismatch", "Variant::to_int(%r) = %s, model.Conforms.to_int gives %s" % (x, hr.get("r", hr), mv), input={"literal": x}, concrete=False,
+                              correspondence="function::Variant::to_int (harness) vs model.Conforms.to_int")
+            else:
+                st["hist"]["to_int_equal"] += 1
+    except Exception as e:
+        ctx.notes.append("to_int correspondence skipped (%s)" % str(e)[:200])
     # recorded findings: replay the witnesses
     for k in load_known():
         if k["property"] == "C02" and k["status"] == "known" and "where" in k["witness"]:
